@@ -22,10 +22,10 @@ theorem sto_text_sym (t : UInt8) (h : isGraph t = true) :
     bne_iff_ne, ne_eq] at h1
   exact ⟨h1.1.1, h1.1.2, h1.2⟩
 
-/-- a text-mode alignment without annotation that Stockholm/Pfam represent faithfully -/
+/-- a text-mode alignment (annotation as `StoAnn` admits) that Stockholm/Pfam represent faithfully -/
 structure StoTextWritable (m : Msa) : Prop where
   dig : m.digital = false
-  plain : StoPlain m
+  ann : StoAnn m
   n1 : 1 ≤ m.nseq
   alen1 : 1 ≤ m.alen
   nodup : m.names.Nodup
@@ -34,7 +34,7 @@ structure StoTextWritable (m : Msa) : Prop where
 
 theorem stoTextWritable_writable (m : Msa) (h : StoTextWritable m) :
     StoWritable none (stockholmCfg none) id (fun i => m.aseq.getD i []) m :=
-  { plain := h.plain, n1 := h.n1, alen1 := h.alen1, nodup := h.nodup, name_ok := h.name_ok
+  { ann := h.ann, n1 := h.n1, alen1 := h.alen1, nodup := h.nodup, name_ok := h.name_ok
     txt_len := fun i hi => (h.row_ok i hi).1
     chunk_eq := fun i hi pos n => by
       show cstr (((m.aseq.getD i []).drop pos).take n) = _
@@ -76,10 +76,10 @@ theorem sto_dig_sym (a : Abc) (ha : stoDigSymOk a = true) (x : UInt8) (hx : x.to
   have he : stoEnc a (a.sym.getD x.toNat 0) = x := by unfold stoEnc; rw [hm]
   exact ⟨by rw [he]; exact hm, hs, hz, he⟩
 
-/-- a digital alignment (alphabet `a`) without annotation that Stockholm/Pfam represent faithfully -/
+/-- a digital alignment (alphabet `a`, annotation as `StoAnn` admits) that Stockholm/Pfam represent faithfully -/
 structure StoDigitalWritable (a : Abc) (m : Msa) : Prop where
   dig : m.digital = true
-  plain : StoPlain m
+  ann : StoAnn m
   n1 : 1 ≤ m.nseq
   alen1 : 1 ≤ m.alen
   nodup : m.names.Nodup
@@ -111,7 +111,7 @@ theorem stoDigitalWritable_writable (a : Abc) (ha : stoDigSymOk a = true) (m : M
     intro i hi x hx
     simpa using (List.all_eq_true.mp (hcodes i hi).1) x hx
   exact
-    { plain := h.plain, n1 := h.n1, alen1 := h.alen1, nodup := h.nodup, name_ok := h.name_ok
+    { ann := h.ann, n1 := h.n1, alen1 := h.alen1, nodup := h.nodup, name_ok := h.name_ok
       txt_len := fun i hi => by simp only [stoDigTxt, List.length_map]; exact (hcodes i hi).2
       chunk_eq := fun i hi pos n => by
         have hshape := dsqRow_shape _ _ _ (h.row_ok i hi)
